@@ -181,7 +181,8 @@ class Case:
             n += 2 * len(c.pieces())
             for a in c.plan.acts():
                 n += 3 + (int(a[1:]) if a[0] == "d" else 0)
-            n += 4 * len(self.extra_resume)
+        if self.extra_resume:
+            n += 8 + max(r for r, _ in self.extra_resume)
         return n
 
     def lines(self):
@@ -246,7 +247,7 @@ def gen_cases(ctx, tier, boost=False):
     rng = ctx.rng
     cases = []
     maxn = 3 if tier == "thorough" else 2
-    modes = ["select", "epoll"] + (["poll"] if tier == "thorough" else [])
+    modes = ["select", "epoll"]     # MHD_USE_POLL exists only with an internal thread (see the random part)
     delays = ["i", "d0", "d2"]
     k = 0
     allp = placements(maxn)
@@ -283,10 +284,12 @@ def gen_cases(ctx, tier, boost=False):
             if rng.random() < 0.15 and combo:
                 p = rng.choice(combo)
                 amap[p] = "n"
-                extra.append((rng.randint(6, 16), i))
+                r0 = rng.randint(6, 12)
+                # a resume that comes before the suspend cancels the next suspend instead: repeat it until the `n` point is served
+                extra += [(r0 + 7 * j, i) for j in range(5)]
             takes = list(takes)
             plan = plan_for(combo, lambda p: amap[p], takes, rid=rng.choice([1, 1, 2]))
-            if plan.us and rng.random() < 0.3 and shape != "get":
+            if plan.us and rng.random() < 0.3 and shape != "get" and plan.us[sorted(plan.us)[0]][0] in "din":
                 # back-pressure pattern: the suspending upload call consumes nothing
                 plan.zero_at = {sorted(plan.us)[0]}
             conns.append(ConnSpec(shape, seg, plan, chunks=[bytes([65 + 7 * i + j for j in range(n)]) for n in (3, 4, 2)]))
@@ -636,7 +639,7 @@ class Spec:
                        "distinct = different scripts with at least one suspend point",
                "bounded_exhaustive": "all placements of <= %d suspend points out of %s (F=first call cycles, U=upload call i, L=final call cycles, "
                                      "R=content reader call j) x 4 request shapes x resume delays {in the callback, next round, +3 rounds} x "
-                                     "modes %s x {1, 2} connections" % (maxn, POINTS, "select/epoll" + ("/poll external" if ctx.tier == "thorough" else "")),
+                                     "modes %s x {1, 2} connections" % (maxn, POINTS, "select/epoll (external)"),
                "random": "mixed actions per point (incl. resume-before-suspend `p`, second-thread resume `t`, explicit resume), 1..3 connections"
                          + (", internal-thread modes" if ctx.tier == "thorough" else ""),
                "exhaustive": False, "corpus": ncorp, "outcomes": stats,
